@@ -13,10 +13,14 @@ use crate::refmodel::value::RV;
 use crate::rng::Rng;
 use evalexpr::{Context, ContextWithMutableVariables, DefaultNumericTypes, EmptyContext, EmptyContextWithBuiltinFunctions};
 
-pub const OTHERS: [&str; 7] = ["foo", "math::nope", "str", "Typeof", "random", "str::regex_matches", "str::regex_replace"];
+pub const OTHERS: [&str; 16] = [
+    "foo", "math::nope", "str", "Typeof", "random", "str::regex_matches", "str::regex_replace",
+    // a builtin under another namespace is not a builtin
+    "math::floor", "math::round", "math::min", "math::len", "str::len", "sqrt", "trim", "math::math::sqrt", "::len",
+];
 const KINDS: usize = 7;
 const SWITCH: usize = 3;
-const FORMS: usize = 13;
+const FORMS: usize = 16;
 const USERS: usize = 3;
 
 fn forms(n: &str) -> Vec<String> {
@@ -34,6 +38,9 @@ fn forms(n: &str) -> Vec<String> {
         format!("{} true", n),
         format!("{} 2.5", n),
         format!("{}(true, x, y)", n),
+        format!("{}(q = 5)", n),
+        format!("{}\u{a0}x", n),
+        format!("m\u{2003}{}\u{b}1", n),
     ]
 }
 
